@@ -67,6 +67,10 @@ type fsOut struct {
 	Err    string // error text, if any
 	Value  []byte // canonical encoding of the successful result
 	Panic  string
+	// Broken: the operation failed as it should, but what it left behind is
+	// inconsistent (set by multi-step operations that inspect the object
+	// with the medium healthy again).
+	Broken string
 }
 
 // fsWorld is the simulated environment of one case.
@@ -153,6 +157,8 @@ func fsInstances(seed uint64, tier string) []fsCfg {
 		add(fsCfg{Family: "img.Sign", Image: &im, Key: i % 4})
 		add(fsCfg{Family: "img.Verify", Image: &im, Key: (i + 1) % 4})
 		add(fsCfg{Family: "img.ParseSignVerify", Image: &im, Key: (i + 2) % 4})
+		add(fsCfg{Family: "img.History", Image: &im, Key: i % 2})
+		add(fsCfg{Family: "blob.AuthVerify", Image: &im, Key: (i + 1) % 2})
 	}
 
 	// variable writes
@@ -313,6 +319,115 @@ func (c fsCfg) build(w *fsWorld) fsOp {
 				return fsOut{Failed: true, Err: fmt.Sprintf("verify: %v %v", ok, err)}
 			}
 			return fsOut{Value: out}
+		}}
+	case "img.History":
+		// a signing history on one object: Sign(a) Verify(a) Sign(b) Verify(a) Verify(b) Hash
+		w.rd.data = w.img
+		other := Pool()[(c.Key+1)%2+0]
+		if other.Idx == pk.Idx {
+			other = Pool()[6]
+		}
+		return fsOp{kind: c.Family, run: func() fsOut {
+			bin, err := authenticode.Parse(w.rd)
+			if err != nil {
+				return fsOut{Failed: true, Err: "parse: " + err.Error()}
+			}
+			var base int
+			var refHash []byte
+			w.plane.Healthy(func() {
+				sigs, _ := bin.Signatures()
+				base = len(sigs)
+				refHash = bin.Hash(crypto.SHA256)
+			})
+			signed := []*PoolKey{}
+			// inspect the object with the medium healthy: what a failure must not have broken
+			inspect := func(step string) string {
+				var bad string
+				w.plane.Healthy(func() {
+					sigs, err := bin.Signatures()
+					if err != nil || len(sigs) != base+len(signed) {
+						bad = fmt.Sprintf("after failed %s: %d signatures listed (err=%v), %d successful signings on top of %d", step, len(sigs), err, len(signed), base)
+						return
+					}
+					if h := bin.Hash(crypto.SHA256); !bytes.Equal(h, refHash) {
+						bad = fmt.Sprintf("after failed %s: Hash() changed", step)
+						return
+					}
+					for _, s := range signed {
+						if ok, err := bin.Verify(s.Cert); !ok {
+							bad = fmt.Sprintf("after failed %s: the earlier signature by k%d no longer verifies (%v)", step, s.Idx, err)
+							return
+						}
+					}
+					nb, err := authenticode.Parse(bytes.NewReader(bin.Bytes()))
+					if err != nil {
+						bad = fmt.Sprintf("after failed %s: Bytes() does not re-parse: %v", step, err)
+						return
+					}
+					if rs, _ := nb.Signatures(); len(rs) != base+len(signed) {
+						bad = fmt.Sprintf("after failed %s: the serialised image carries %d signatures, expected %d", step, len(rs), base+len(signed))
+					}
+				})
+				return bad
+			}
+			failAt := func(step string, err error) fsOut {
+				return fsOut{Failed: true, Err: step + ": " + fmt.Sprint(err), Broken: inspect(step)}
+			}
+			if _, err := bin.Sign(w.signer, pk.Cert); err != nil {
+				return failAt("Sign(a)", err)
+			}
+			signed = append(signed, pk)
+			if ok, err := bin.Verify(pk.Cert); err != nil || !ok {
+				return failAt("Verify(a)", fmt.Errorf("%v %v", ok, err))
+			}
+			os := &SimSigner{inner: other.Key, p: w.plane}
+			if _, err := bin.Sign(os, other.Cert); err != nil {
+				return failAt("Sign(b)", err)
+			}
+			signed = append(signed, other)
+			if ok, err := bin.Verify(pk.Cert); err != nil || !ok {
+				return failAt("Verify(a) after Sign(b)", fmt.Errorf("%v %v", ok, err))
+			}
+			if ok, err := bin.Verify(other.Cert); err != nil || !ok {
+				return failAt("Verify(b)", fmt.Errorf("%v %v", ok, err))
+			}
+			h := bin.Hash(crypto.SHA256)
+			if h == nil {
+				return failAt("Hash", fmt.Errorf("nil digest"))
+			}
+			var out []byte
+			w.plane.Healthy(func() { out = bin.Bytes() })
+			return fsOut{Value: append(h, out...)}
+		}}
+	case "blob.AuthVerify":
+		// Authenticode.Verify(cert, reader): the reader is the caller's
+		w.rd.data = w.img
+		bin := mustParse(w)
+		var sig []byte
+		var hashed []byte
+		w.plane.Healthy(func() {
+			var err error
+			sig, err = bin.Sign(pk.Key, pk.Cert)
+			if err != nil {
+				harnessf("setup Sign: %v", err)
+			}
+		})
+		// the bytes the digest covers, rebuilt independently: the padded original without the excluded fields
+		hashed = refHashedBytes(w.img)
+		w.rd.data = hashed
+		ac, err := authenticode.ParseAuthenticode(sig)
+		if err != nil {
+			harnessf("ParseAuthenticode of a fresh signature: %v", err)
+		}
+		return fsOp{kind: c.Family, relift: true, run: func() fsOut {
+			ok, err := ac.Verify(pk.Cert, io.NewSectionReader(w.rd, 0, int64(len(hashed))))
+			if err != nil {
+				return fsOut{Failed: true, Err: err.Error()}
+			}
+			if !ok {
+				return fsOut{Failed: true, Err: "false, nil"}
+			}
+			return fsOut{Value: []byte{1}}
 		}}
 	case "var.Write":
 		return c.buildWrite(w)
@@ -824,6 +939,10 @@ func (e *faultseqEngine) execCase(c fsCfg, faults []Fault, x *X) {
 		return
 	}
 	// the operation failed, as it must. Now what it must not have done.
+	if out.Broken != "" {
+		fail("faultseq.object_consistent_after_failure", "%s (failure: %s)", out.Broken, out.Err)
+		return
+	}
 	if op.state != nil {
 		if post := op.state(); !bytes.Equal(pre, post) {
 			fail("faultseq.failed_sign_leaves_object", "operation failed (%s) but the object changed (signatures/bytes differ from before)", out.Err)
